@@ -306,6 +306,7 @@ p["units"] += [
     K("h_serde::serde_deser_rbh_len31", "thorough", "same at 32 registers", "rbh_len31", mem_class_gb=6, timeout_s=3000),
     K("h_serde::serde_deser_rbh_len33", "thorough", "same at 32 registers", "rbh_len33", mem_class_gb=6, timeout_s=3000),
     K("h_serde::serde_roundtrip_b4", "quick", "serialize -> deserialize gives an equal sketch with the same reaction to add", "b=4", mem_class_gb=6, timeout_s=3000),
+    K("h_serde::serde_ser_fields_all_b", "quick", "Serialize for every precision b in 4..=18 (symbolic): three fields, `b` = the precision, all 2^b registers handed to the serializer (count recorded, contents not walked); with serde_validation_all_b_all_len this is the round trip's acceptance up to b = 18", "b symbolic 4..=18", mem_class_gb=6, timeout_s=2400, must_cover=[]),
     K("h_hll::hll_count_no_panic_b4", "quick", "count() returns for any register contents (b=4); the empty sketch counts 0", "b=4", mem_class_gb=10, timeout_s=3000),
     M("serde_validation_all_b_all_len", "quick", "engine M on the MIR of visit_map with a MapAccess contract: for all 6 field orders, EVERY b (u64) and EVERY register count: Ok => 4<=b<=18 and len=2^b, fields passed through; valid => Ok (incl. b=18); 9 incomplete/duplicate shapes => Err",
       "all b, all len", model="serde", need_witness=["accepts_b18", "accepts_b4", "rejects_b19", "rejects_b3"]),
@@ -454,7 +455,9 @@ for pid_ in ("C06", "C12"):
     for sh in _qf_shapes():
         name = "qf_union_q2r2_s" + "".join(map(str, sh))
         P_["units"].append(M(name, "quick", "QF union at 4 slots, other's shape %s: Ok iff |X u Y| <= 4, state = enc(X u Y) / unchanged on Err (failure at every transfer position is its own path), other untouched" % sh,
-                             "(2,2) shape %s" % sh, model="qf", op="union", bq=2, br=2, shape=sh, timeout_s=3600, pool="qfu", pool_pick=5, pool_must=(sh == [0, 2, 1, 1])))
+                             "(2,2) shape %s" % sh, model="qf", op="union", bq=2, br=2, shape=sh, timeout_s=3600, pool="qfu", pool_pick=4,
+                             # always run: the wrapping three-run cluster; a cluster that STARTS in the last slot and wraps; two separate clusters
+                             pool_must=(sh in ([0, 2, 1, 1], [0, 0, 0, 2], [1, 0, 1, 0]))))
 P_ = PROPS["C13"]
 P_["assumptions"] = P_["assumptions"] + QF_M_ASSUME
 P_["units"] += [
